@@ -34,7 +34,7 @@ func unitC13sess(e common.Env, p *common.Part) {
 		tuples = tuples[:70]
 	}
 	// PRNG identifiers elsewhere in the range, sizes 3..4
-	extra := e.Pick(30, 600)
+	extra := e.Pick(30, 6000)
 	for i := 0; i < extra; i++ {
 		n := 3 + rng.Intn(2)
 		used := map[uint16]bool{}
